@@ -78,6 +78,9 @@ fn main() {
                 } else {
                     events += seq::run_history(&h, &mut out, with_phys, i + 1);
                 }
+                if seq::HUNG.load(std::sync::atomic::Ordering::SeqCst) {
+                    break;
+                }
             }
             out.flush().unwrap();
             println!("{{\"histories\": {}, \"events\": {}}}", count, events);
@@ -110,6 +113,9 @@ fn main() {
                     continue;
                 }
                 events += seq::run_history(&h, &mut out, with_phys, n);
+                if seq::HUNG.load(std::sync::atomic::Ordering::SeqCst) {
+                    break;
+                }
             }
             out.flush().unwrap();
             println!("{{\"histories\": {}, \"events\": {}}}", n, events);
@@ -261,6 +267,13 @@ fn main() {
                     }
                 }
             }
+            // faults that leave a bulky answer unsent; the server runs everything on one thread here, as memcrsd's
+            // current-thread mode does, so that a stalled worker cannot hide behind another one
+            let srv1 = tcp::start_server(tcp::free_port(base + 50), "none", 0, 1 << 20, 64, 3, 0);
+            for _ in 0..3 {
+                fault::run_bulky(&srv1, &mut out);
+                runs += 1;
+            }
             out.flush().unwrap();
             println!("{{\"streams\": {}, \"runs\": {}}}", count, runs);
         }
@@ -321,9 +334,23 @@ fn main() {
             let mut exhausted = 0;
             let mut bad = 0;
             let mut nprog = 0;
+            let only_init = a.get("init").cloned();
+            let layer = get("layer", "memc");
+            let progs: Vec<conc::Program> = progs.into_iter().map(|mut p| {
+                p.layer = layer.clone();
+                if layer == "cache" {
+                    p.name = format!("{}@cache", p.name);
+                }
+                p
+            }).collect();
             for (i, p) in progs.iter().enumerate() {
                 if i % parts != part {
                     continue;
+                }
+                if let Some(x) = &only_init {
+                    if &p.init != x {
+                        continue;
+                    }
                 }
                 nprog += 1;
                 writeln!(out, "{}", conc::program_event(i + 1, p)).unwrap();
@@ -364,7 +391,7 @@ fn main() {
                     }
                     clients.push(vec![cmd]);
                 }
-                let p = conc::Program { name: format!("tlc-{}", n), kind, init: init.clone(), policy: "none".into(), mem_limit: 0,
+                let p = conc::Program { layer: "memc".into(), name: format!("tlc-{}", n), kind, init: init.clone(), policy: "none".into(), mem_limit: 0,
                     keys: vec![b"ck".to_vec()], setup: concgen::setup(&init), clients };
                 let order: Vec<usize> = v["sched"].as_array().unwrap().iter().map(|x| x[0].as_u64().unwrap_or(1) as usize).collect();
                 let sites: Vec<String> = v["sched"].as_array().unwrap().iter().map(|x| x[1].as_str().unwrap_or("").to_string()).collect();
@@ -402,6 +429,25 @@ fn main() {
             }
             out.flush().unwrap();
             println!("{{\"programs\": {}, \"runs\": {}, \"incomplete\": {}}}", progs.len(), n, hangs);
+        }
+        "conc-hammer" => {
+            let threads: usize = get("threads", "8").parse().unwrap();
+            let ops: usize = get("ops", "20000").parse().unwrap();
+            let rounds: usize = get("rounds", "3").parse().unwrap();
+            let mut out = BufWriter::new(File::create(get("out", "hammer.ndjson")).unwrap());
+            let mut bad = 0;
+            for r in 0..rounds {
+                let (policy, limit) = if r % 2 == 0 { ("none", 0u64) } else { ("random", 4000u64) };
+                if !conc::hammer(threads, ops, 25, policy, limit, &mut out, r + 1) {
+                    bad += 1;
+                    break;
+                }
+            }
+            out.flush().unwrap();
+            println!("{{\"runs\": {}, \"incomplete\": {}}}", rounds, bad);
+            if bad > 0 {
+                std::process::exit(0);
+            }
         }
         "tcp-wire" => {
             // frame streams over a socket, every stream under many segmentations
@@ -469,5 +515,9 @@ fn main() {
             eprintln!("unknown sub-command {}", x);
             std::process::exit(2);
         }
+    }
+    if seq::HUNG.load(std::sync::atomic::Ordering::SeqCst) {
+        // a thread of the code under test never came back: leave without waiting for it
+        std::process::exit(0);
     }
 }
